@@ -368,7 +368,8 @@ fn harnesses(def: &ModuleDef, vars: &[Vec<Field>], max_size: usize, max_align: u
             }
         }
         writeln!(o, "        drop(u);").unwrap();
-        writeln!(o, "        assert!(all_tokens_dropped_exactly_once(), \"C06: every value moved into the record destroyed exactly once\");").unwrap();
+        writeln!(o, "        assert!(no_token_dropped_twice(), \"C06 C07: a value was destroyed twice, i.e. a typed read of a value that had already been moved out (every value moved into the record destroyed exactly once)\");").unwrap();
+        writeln!(o, "        assert!(no_token_leaked(), \"C06: a value moved into the record was never destroyed (every value moved into the record destroyed exactly once)\");").unwrap();
         writeln!(o, "    }}\n").unwrap();
 
         // ---- C04: placements (Box, Vec element), drop without unpack -------------------------
@@ -384,7 +385,8 @@ fn harnesses(def: &ModuleDef, vars: &[Vec<Field>], max_size: usize, max_align: u
         check_acc(&mut o, "v[1]", fields, &|f| format!("t_{}", f.name), "C04 vector element 1");
         writeln!(o, "        assert!(no_token_dropped_twice(), \"C06: moving a record must not destroy its fields\");").unwrap();
         writeln!(o, "        drop(v);").unwrap();
-        writeln!(o, "        assert!(all_tokens_dropped_exactly_once(), \"C06: dropping a record destroys every field exactly once\");").unwrap();
+        writeln!(o, "        assert!(no_token_dropped_twice(), \"C06 C07: a value was destroyed twice, i.e. a typed read of a value that had already been moved out (dropping a record destroys every field exactly once)\");").unwrap();
+        writeln!(o, "        assert!(no_token_leaked(), \"C06: a value moved into the record was never destroyed (dropping a record destroys every field exactly once)\");").unwrap();
         writeln!(o, "    }}\n").unwrap();
 
         // ---- C04: new_uninit ---------------------------------------------------------------
@@ -406,7 +408,8 @@ fn harnesses(def: &ModuleDef, vars: &[Vec<Field>], max_size: usize, max_align: u
                 writeln!(o, "        assert!(u.{n}.is(s_{n}), \"C04 unpack after new_uninit: field {n}\");", n = f.name).unwrap();
             }
             writeln!(o, "        drop(u);").unwrap();
-            writeln!(o, "        assert!(all_tokens_dropped_exactly_once(), \"C06: exactly once after new_uninit\");").unwrap();
+            writeln!(o, "        assert!(no_token_dropped_twice(), \"C06 C07: a value was destroyed twice, i.e. a typed read of a value that had already been moved out (exactly once after new_uninit)\");").unwrap();
+        writeln!(o, "        assert!(no_token_leaked(), \"C06: a value moved into the record was never destroyed (exactly once after new_uninit)\");").unwrap();
             writeln!(o, "    }}\n").unwrap();
         }
 
@@ -433,7 +436,8 @@ fn harnesses(def: &ModuleDef, vars: &[Vec<Field>], max_size: usize, max_align: u
             writeln!(o, "        drop(r);").unwrap();
             check_acc(&mut o, "c", fields, &|f| format!("n_{}", f.name), "C16 clone readable after the source is dropped");
             writeln!(o, "        drop(c);").unwrap();
-            writeln!(o, "        assert!(all_tokens_dropped_exactly_once(), \"C06: clone and source destroyed exactly once each\");").unwrap();
+            writeln!(o, "        assert!(no_token_dropped_twice(), \"C06 C07: a value was destroyed twice, i.e. a typed read of a value that had already been moved out (clone and source destroyed exactly once each)\");").unwrap();
+        writeln!(o, "        assert!(no_token_leaked(), \"C06: a value moved into the record was never destroyed (clone and source destroyed exactly once each)\");").unwrap();
             writeln!(o, "    }}\n").unwrap();
 
             hdr(&mut o, &format!("c16_v{k}_clone_from"));
@@ -450,7 +454,8 @@ fn harnesses(def: &ModuleDef, vars: &[Vec<Field>], max_size: usize, max_align: u
             }
             check_acc(&mut o, "src", fields, &|f| format!("s_{}", f.name), "C16 source unchanged by clone_from");
             writeln!(o, "        drop(src);\n        drop(tgt);").unwrap();
-            writeln!(o, "        assert!(all_tokens_dropped_exactly_once(), \"C06: exactly once after clone_from\");").unwrap();
+            writeln!(o, "        assert!(no_token_dropped_twice(), \"C06 C07: a value was destroyed twice, i.e. a typed read of a value that had already been moved out (exactly once after clone_from)\");").unwrap();
+        writeln!(o, "        assert!(no_token_leaked(), \"C06: a value moved into the record was never destroyed (exactly once after clone_from)\");").unwrap();
             writeln!(o, "    }}\n").unwrap();
         }
 
@@ -510,7 +515,8 @@ fn harnesses(def: &ModuleDef, vars: &[Vec<Field>], max_size: usize, max_align: u
                 } else {
                     writeln!(o, "        drop(r);").unwrap();
                 }
-                writeln!(o, "        assert!(all_tokens_dropped_exactly_once(), \"C06: exactly once across the conversion\");").unwrap();
+                writeln!(o, "        assert!(no_token_dropped_twice(), \"C06 C07: a value was destroyed twice, i.e. a typed read of a value that had already been moved out (exactly once across the conversion)\");").unwrap();
+        writeln!(o, "        assert!(no_token_leaked(), \"C06: a value moved into the record was never destroyed (exactly once across the conversion)\");").unwrap();
                 writeln!(o, "    }}\n").unwrap();
             }
         }
